@@ -1286,6 +1286,191 @@ pub fn arb_system() -> impl Strategy<Value = SysCase> {
         })
 }
 
+
+// =============================================================================================
+// Receiver handed from task to task: the result goes, exactly once, to whoever polled last
+
+/// Several consumer tasks share one `Receiver`. `polls[k]` names the consumer that polls it at
+/// turn k (a consumer polls the receiver only at its turns, and again when it is woken while it is
+/// the most recent one to have been told "pending" - exactly what a task does that was handed the
+/// receiver and awaits it). The producer completes after `release_after` turns (its own task,
+/// released from outside, finishing after `producer_yields` self-wakes).
+#[derive(Clone, Debug, PartialEq, Eq, Hash, Serialize, Deserialize)]
+pub struct HandCase {
+    pub polls: Vec<u8>,
+    pub release_after: u8,
+    pub producer_yields: u8,
+    pub step_mode: bool,
+}
+
+struct HWorld {
+    rx: Option<Receiver<i32>>,
+    turns: Vec<u32>,
+    wakers: Vec<Option<Waker>>,
+    last_pending: Option<usize>,
+    got: Vec<(usize, i32)>,
+    released: bool,
+    prod_waker: Option<Waker>,
+    rx_polls: u32,
+}
+
+fn check_hand(c: &HandCase) -> Outcome {
+    let ncons = 1 + c.polls.iter().copied().max().unwrap_or(0) as usize;
+    let exec = Executor::new();
+    let w = Rc::new(RefCell::new(HWorld { rx: None, turns: vec![0; ncons], wakers: vec![None; ncons], last_pending: None, got: vec![], released: false, prod_waker: None, rx_polls: 0 }));
+    // producer
+    let rx = {
+        let w = w.clone();
+        let mut yields = c.producer_yields;
+        // (safety: wakers never leave this thread)
+        let fut = std::future::poll_fn(move |cx: &mut Context<'_>| {
+            if !w.borrow().released {
+                w.borrow_mut().prod_waker = Some(cx.waker().clone());
+                return Poll::Pending;
+            }
+            if yields > 0 {
+                yields -= 1;
+                cx.waker().wake_by_ref();
+                return Poll::Pending;
+            }
+            Poll::Ready(42)
+        });
+        unsafe { exec.spawn(fut) }
+    };
+    w.borrow_mut().rx = Some(rx);
+    // consumers
+    for i in 0..ncons {
+        let w = w.clone();
+        let mut finished = false;
+        let fut = std::future::poll_fn(move |cx: &mut Context<'_>| {
+            if finished {
+                return Poll::Ready(());
+            }
+            let mut wb = w.borrow_mut();
+            wb.wakers[i] = Some(cx.waker().clone());
+            let my_turn = wb.turns[i] > 0;
+            if my_turn {
+                wb.turns[i] -= 1;
+            }
+            if !(my_turn || wb.last_pending == Some(i)) {
+                return Poll::Pending;
+            }
+            let Some(mut rx) = wb.rx.take() else { return Poll::Pending };
+            wb.rx_polls += 1;
+            drop(wb);
+            let r = Pin::new(&mut rx).poll(cx);
+            let mut wb = w.borrow_mut();
+            match r {
+                Poll::Ready(v) => {
+                    // the receiver is spent; keep it away from further polls
+                    wb.got.push((i, v));
+                    wb.last_pending = None;
+                    finished = true;
+                    Poll::Ready(())
+                }
+                Poll::Pending => {
+                    wb.rx = Some(rx);
+                    wb.last_pending = Some(i);
+                    Poll::Pending
+                }
+            }
+        });
+        unsafe { exec.spawn_pinned(Box::pin(fut)) };
+    }
+    let run = |exec: &Executor| {
+        if c.step_mode {
+            let mut n = 0;
+            while exec.step().is_some() {
+                n += 1;
+                if n > 10_000 {
+                    return false;
+                }
+            }
+            true
+        } else {
+            exec.run_until_stalled();
+            true
+        }
+    };
+    let ctx = |m: String, w: &HWorld| format!("{m}; case {c:?}; deliveries {:?}, receiver polled {} times", w.got, w.rx_polls);
+    if !run(&exec) {
+        return Outcome::fail(ctx("the step loop does not terminate".into(), &w.borrow()));
+    }
+    let release = |w: &Rc<RefCell<HWorld>>| {
+        let pw = {
+            let mut wb = w.borrow_mut();
+            wb.released = true;
+            wb.prod_waker.take()
+        };
+        if let Some(pw) = pw {
+            pw.wake();
+        }
+    };
+    let mut released = false;
+    let mut expected: Option<usize> = None; // who must end up with the value
+    let mut last_registered: Option<usize> = None;
+    for (k, &p) in c.polls.iter().enumerate() {
+        if !released && k as u8 >= c.release_after {
+            release(&w);
+            released = true;
+            if !run(&exec) {
+                return Outcome::fail(ctx("the step loop does not terminate".into(), &w.borrow()));
+            }
+            // the value exists now: the consumer that polled last (if any) has been woken
+            if expected.is_none() {
+                expected = last_registered;
+            }
+        }
+        let p = p as usize;
+        let waker = {
+            let mut wb = w.borrow_mut();
+            wb.turns[p] += 1;
+            wb.wakers[p].clone()
+        };
+        if let Some(wk) = waker {
+            wk.wake();
+        }
+        if !run(&exec) {
+            return Outcome::fail(ctx("the step loop does not terminate".into(), &w.borrow()));
+        }
+        if expected.is_none() {
+            if released {
+                // first poll after the value exists gets it, unless an earlier delivery happened
+                expected = Some(p);
+            } else {
+                last_registered = Some(p);
+            }
+        }
+    }
+    if !released {
+        release(&w);
+        if !run(&exec) {
+            return Outcome::fail(ctx("the step loop does not terminate".into(), &w.borrow()));
+        }
+        expected = last_registered;
+    }
+    let wb = w.borrow();
+    let want: Vec<(usize, i32)> = expected.map(|e| (e, 42)).into_iter().collect();
+    if wb.got != want {
+        return Outcome::fail(ctx(
+            format!(
+                "the producer completed with 42; the value must be delivered exactly once, to consumer {expected:?} (the task that polled the Receiver last before the value existed is woken; otherwise the first task to poll afterwards)"
+            ),
+            &wb,
+        ));
+    }
+    if exec.wake_count() != 0 {
+        return Outcome::fail(ctx(format!("wake_count() = {} after the run stalled", exec.wake_count()), &wb));
+    }
+    let handed_over = c.polls.len() >= 2 && c.polls.windows(2).any(|p| p[0] != p[1]);
+    Outcome::pass(handed_over)
+        .class_if(handed_over, "receiver-polled-by-different-tasks")
+        .class_if(c.release_after as usize >= c.polls.len(), "value-computed-after-the-last-poll")
+        .class_if(c.step_mode, "step-loop")
+}
+
+pub static HAND: Driver<HandCase> = Driver::new("C15", "receiver-handover", check_hand);
+
 // =============================================================================================
 
 pub fn run(ctx: &Ctx, st: &mut Stats) {
@@ -1356,6 +1541,36 @@ pub fn run(ctx: &Ctx, st: &mut Stats) {
     // (4) random larger systems
     let n = ctx.tier.pick(200_000, 10_000_000);
     RANDOM.run_random(ctx, st, n, arb_system);
+
+    // (5) exhaustive: a Receiver polled by up to 3 tasks in every order of <= 5 turns, the value
+    //     computed after every prefix, producer finishing at once or after self-wakes, both run modes
+    let seqs: Vec<Vec<u8>> = {
+        let mut v = vec![];
+        for len in 1..=5u32 {
+            for mut k in 0..3u64.pow(len) {
+                let mut q = vec![];
+                for _ in 0..len {
+                    q.push((k % 3) as u8);
+                    k /= 3;
+                }
+                v.push(q);
+            }
+        }
+        v
+    };
+    let mut hand_cases = vec![];
+    for q in &seqs {
+        for rel in 0..=q.len() as u8 {
+            for py in 0..2u8 {
+                for step_mode in [false, true] {
+                    hand_cases.push(HandCase { polls: q.clone(), release_after: rel, producer_yields: py, step_mode });
+                }
+            }
+        }
+    }
+    let total_h = hand_cases.len() as u64;
+    HAND.run_exhaustive(ctx, st, total_h, &move |i| hand_cases.get(i as usize).cloned());
+    st.extra.insert("receiver_handover_space".into(), serde_json::json!({"consumers": "1..=3", "turns": "1..=5", "cases": total_h}));
 }
 
 pub fn replay(driver: &str, case: &serde_json::Value) -> Result<(Outcome, Option<&'static str>), String> {
@@ -1364,6 +1579,7 @@ pub fn replay(driver: &str, case: &serde_json::Value) -> Result<(Outcome, Option
         "spawn-join" => SPAWNJOIN.replay_known(case),
         "strided" => STRIDED.replay_known(case),
         "random" => RANDOM.replay_known(case),
+        "receiver-handover" => HAND.replay_known(case),
         _ => Err(format!("unknown driver {driver}")),
     }
 }
